@@ -48,12 +48,13 @@ RESP = {
     "s_epipe": (HEAD_OK, b"hello", False),
     "s_reset": (HEAD_OK, b"hello", False),
 }
+NEW_FAULTS = ("n_invalid", "n_boom")                  # raised by the ConnectionCls constructor, after the checkout
 CONNECT_FAULTS = ("c_refused", "c_timeout", "c_boom")
 SEND_FAULTS = ("s_epipe", "s_reset", "s_oserr", "s_boom")
 RECV_FAULTS = ("r_reset", "r_ssl", "r_boom")          # raised by the socket at the first receive
 BODY_FAULTS = ("b_boom", "b_reset")                   # raised by the socket at the first body receive
-INTERRUPTS = ("c_boom", "s_boom", "r_boom", "b_boom")
-ALL_SYMBOLS = sorted(set(RESP) | set(CONNECT_FAULTS) | set(SEND_FAULTS) | set(RECV_FAULTS)
+INTERRUPTS = ("n_boom", "c_boom", "s_boom", "r_boom", "b_boom")
+ALL_SYMBOLS = sorted(set(RESP) | set(NEW_FAULTS) | set(CONNECT_FAULTS) | set(SEND_FAULTS) | set(RECV_FAULTS)
                      | {"r_timeout", "r_eof", "r_garbage", "x_stale"})
 DISPOSALS = ("read", "read2rel", "release", "drain", "close", "stream")
 
@@ -63,7 +64,10 @@ class Interrupt(KeyboardInterrupt):
 
 
 def make_fault(sym):
+    import http.client
     return {
+        "n_invalid": lambda: http.client.InvalidURL("URL can't contain control characters. 'exam ple.invalid' (found at least ' ')"),
+        "n_boom": lambda: Interrupt("new connection"),
         "c_refused": lambda: ConnectionRefusedError(errno.ECONNREFUSED, "Connection refused"),
         "c_timeout": lambda: socket.timeout("timed out"),
         "c_boom": lambda: Interrupt("connect"),
@@ -87,7 +91,7 @@ class Plan:
 
     def __init__(self, sym, ordinal):
         self.sym, self.ordinal = sym, ordinal
-        self.exc = make_fault(sym) if sym in CONNECT_FAULTS + SEND_FAULTS + RECV_FAULTS + BODY_FAULTS else None
+        self.exc = make_fault(sym) if sym in NEW_FAULTS + CONNECT_FAULTS + SEND_FAULTS + RECV_FAULTS + BODY_FAULTS else None
         self.used_send = False
         if self.exc is not None:
             _made.append(self.exc)
@@ -264,12 +268,27 @@ def _retries(sym):
     return {"F": False, "0": 0, "1": 1}.get(sym, None) if sym != "R2" else Retry(2, status_forcelist=[503], redirect=1)
 
 
+def _conn_init(self, *a, **kw):
+    """ConnectionCls extension point: the constructor consults the attempt plan (outcome class 'the connection
+    object cannot be built after the slot was checked out', e.g. http.client.InvalidURL for a host with a blank)."""
+    pnet = type(self).pnet
+    p = pnet.cur
+    if p is not None and p.sym in NEW_FAULTS and not p.used_send:
+        p.used_send = True
+        pnet.log.append(("NEWFAULT", type(p.exc).__name__))
+        pnet.inject(p.exc)
+        raise p.exc
+    super(type(self), self).__init__(*a, **kw)
+
+
 def make_pool(cfg, rec):
     """The pool under test, built through the public constructors (direct) or by ProxyManager (fwd)."""
     import urllib3
+    from urllib3.connection import HTTPConnection
     from urllib3.util.timeout import Timeout
     q = type("RecQ", (RecQueue,), {"rec": rec})
-    pcls = type("RecPool", (urllib3.HTTPConnectionPool,), {"QueueCls": q})
+    ccls = type("ScriptedConn", (HTTPConnection,), {"pnet": rec.net, "__init__": _conn_init})
+    pcls = type("RecPool", (urllib3.HTTPConnectionPool,), {"QueueCls": q, "ConnectionCls": ccls})
     to = Timeout(connect=0.05, read=0.03)
     if cfg["route"] == "direct":
         return None, pcls("h.test", 80, maxsize=cfg["n"], block=cfg["block"], timeout=to)
@@ -287,12 +306,14 @@ def _cut():
     del _made[:]
 
 
-def _classify(exc, injected):
+def _classify(exc, injected, badarg=False):
     from urllib3.exceptions import HTTPError
     if any(exc is x for x in injected):
         return "interrupt"
     if isinstance(exc, HTTPError):
         return "urllib3"
+    if badarg and isinstance(exc, (ValueError, TypeError)):
+        return "caller"      # the harness itself passed an invalid argument: the caller's own error
     return "raw"
 
 
@@ -328,6 +349,7 @@ def run_scenario(sc):
     obs = {"reqs": [], "disps": []}
     with pnet:
         pm, pool = make_pool(cfg, rec)
+        log.append(("CREATED",))
         resps = {}
         done = []      # disposed responses stay referenced by the caller until quiescence
         for st in sc["steps"]:
@@ -341,12 +363,15 @@ def run_scenario(sc):
                           release_conn=cfg["release"], pool_timeout=0)
                 if cfg["route"] != "direct":
                     kw["assert_same_host"] = False
+                badarg = st.get("how") == "badarg"
+                if badarg:
+                    kw["timeout"] = "bad"      # not a number: fails in _get_timeout, before any checkout
                 try:
                     r = pool.urlopen("GET", url, **kw)
                 except BaseException as ex:  # noqa: B036 - the harness records whatever comes out
                     if isinstance(ex, vnet.HarnessStall):
                         raise
-                    cls = _classify(ex, pnet.injected)
+                    cls = _classify(ex, pnet.injected, badarg)
                     log.append(("REQEND", st["id"], "raised", cls, type(ex).__name__))
                     obs["reqs"].append({"id": st["id"], "out": type(ex).__name__ if cls != "interrupt" else "Interrupt",
                                         "atts": rec.att_pos, "dials": len(pnet.dials) - d0})
@@ -472,6 +497,8 @@ def encode(log):
             out.append(EV("QPut", item=e[1], sock=e[2], res=e[3]))
         elif k == "DIAL":
             out.append(EV("Dial", sock=e[1], res=e[2]))
+        elif k == "CREATED":
+            out.append(EV("Created"))
         elif k == "CLOSE":
             out.append(EV("SockClose", sock=e[1]))
         elif k == "INTERRUPT":
